@@ -90,7 +90,9 @@ def run(tier):
         ("minus3-titled", [Lk("du", 1, 1, "du"), Lk("mmm", 1), Lk("ppp", 1), Lk("hh", 0, 2), Lk("minus3"), Lk("zero")]),
     ]
     hunk_hists = [h for h in hists if any(l["c"] in ("minus", "plus", "zero", "cin", "minus3", "subc", "subp") for l in h)]
-    sample = hunk_hists if tier == "thorough" else rnd.sample(hunk_hists, min(len(hunk_hists), 3000))
+    if len(hunk_hists) > 200000:
+        hunk_hists = rnd.sample(hunk_hists, 200000)        # (bounded: the thorough run has to fit into time and memory)
+    sample = rnd.sample(hunk_hists, min(len(hunk_hists), 40000 if tier == "thorough" else 3000))
     plans = [
         stream.Plan("rs", hunk_hists),
         stream.Plan("rs+markers", sample, ["--keep-plus-minus-markers"], {"keep": True}),
@@ -117,8 +119,7 @@ def run(tier):
                              cmd=["git", "log", "-p", "--color-words"]))
     for h, fn in pl:
         plans.append(stream.Plan("payload+word-diff", [h], [], {"wd": True}, fn, cmd=["git", "show", "--word-diff-regex=."]))
-    res = stream.execute_plans(plans)
-    failed, n = stream.validate_runs([x[4] for x in res])
+    failed, n, res, drift_lines = stream.execute_and_validate(plans)
     log(f"[{PID}] replayed {n} runs, {len(failed)} rejected by Obs_Stream")
     for f in failed:
         p, h, data, r, ev, rows = res[f["run"]]
@@ -131,7 +132,7 @@ def run(tier):
         V.violation(sig, f"history [{stream.shape(h)[:200]}] under {p.name}: wanted row {f['i']} ({f['wt']}) "
                     f"but output row {f['j']} is {f['gt']}",
                     {"history": h, "config": p.name, "run": r.to_json(), "failure": f})
-    V.drift = stream.drift_report(res)
+    V.drift = drift_lines
     if cex and not V.violations:
         V.drift.append(f"module=Impl_Stream design-level counterexample {cex[0]['inv']} not reproduced by the binary")
     rc = V.finish()
